@@ -77,20 +77,22 @@ def run_extraction(name, driver_text, wanted, extra_includes=(), defines=(), std
         try:
             em, names = cxx2c.extract(drv, wanted, incs, defines, std, externals=externals, opaque=opaque,
                                       type_map=type_map, extern_funcs=extern_funcs)
-            text = em.output("driver: %s; wanted: %d functions" % (name, len(wanted)))
+            hdr, text = em.output("driver: %s; wanted: %d functions" % (name, len(wanted)), hname=name + ".h")
             cpp, fwd = cxx2c.make_shims(em)
             leafs = {s: struct_leafs(em, s) for s in em.struct_order}
         except cxx2c.Unsupported as e:
             raise Undecided("extraction (%s): %s" % (name, e))
-        d = {"c": text, "names": names, "info": em.fn_src, "cpp": cpp, "fwd": fwd, "protos": em.fn_proto,
+        d = {"c": text, "h": hdr, "names": names, "info": em.fn_src, "cpp": cpp, "fwd": fwd, "protos": em.fn_proto,
              "order": em.fn_order, "leafs": leafs, "may_throw": sorted(em.may_throw)}
         json.dump(d, open(cfile, "w"))
     ex.c_path = os.path.join(outdir, name + ".c")
     ex.shim_cpp = os.path.join(outdir, name + ".shim.cpp")
     ex.fwd_c = os.path.join(outdir, name + ".fwd.c")
+    ex.h_path = os.path.join(outdir, name + ".h")
+    _write(ex.h_path, d["h"])
     _write(ex.c_path, d["c"])
     _write(ex.shim_cpp, '#include "%s"\n' % os.path.basename(drv) + d["cpp"])
-    _write(ex.fwd_c, d["fwd"])
+    _write(ex.fwd_c, '#include "%s.h"\n' % name + d["fwd"])
     ex.names = d["names"]
     ex.info = d["info"]
     ex.protos = d["protos"]
@@ -198,7 +200,11 @@ static unsigned char vf_pool_uc (void) { return (unsigned char) (vf_rnd () >> 16
 static signed char vf_pool_sc (void) { return (signed char) (vf_small ()); }
 static _Bool vf_pool_b (void) { return (vf_rnd () >> 16) & 1; }
 #define VF_EQ_FP(a, b) (((a) != (a) && (b) != (b)) || (memcmp (&(a), &(b), sizeof (a)) == 0))
-static int vf_bad, vf_cases;
+static int vf_bad, vf_cases, vf_trapped;
+#include <signal.h>
+#include <setjmp.h>
+static sigjmp_buf vf_jb;
+static void vf_fpe (int sig) { (void) sig; siglongjmp (vf_jb, 1); }
 '''
 
 
@@ -292,7 +298,8 @@ def differential(ex, outdir, seed, skip=()):
             continue
         rbase, rptr = mm.group(1).strip(), mm.group(2)
         body = ["static void test_%s (void)\n{" % cn, "    " + " ".join(decls), "    for (int it = 0; it < VF_ITERS; it++)\n    {",
-                "        " + " ".join(fills)]
+                "        " + " ".join(fills),
+                "        if (sigsetjmp (vf_jb, 1)) { vf_trapped++; continue; } /* integer division trap: undefined behaviour, case skipped */"]
         # aliasing variant: every third iteration pass the same object for all struct pointer params of equal type
         call1 = "%s (%s)" % (cn, ", ".join(args1))
         call2 = "fwd_%s (%s)" % (cn, ", ".join(args2))
@@ -323,7 +330,7 @@ def differential(ex, outdir, seed, skip=()):
         drv.append("\n".join(body))
         calls.append("    test_%s ();" % cn)
         tested.append(cn)
-    drv.append("int main (int argc, char **argv)\n{\n    if (argc > 1) vf_rs ^= strtoull (argv[1], 0, 10) * 0x9E3779B97F4A7C15ull;\n%s\n    printf (\"cases %%d bad %%d\\n\", vf_cases, vf_bad);\n    return vf_bad ? 1 : 0;\n}" % "\n".join(calls))
+    drv.append("int main (int argc, char **argv)\n{\n    if (argc > 1) vf_rs ^= strtoull (argv[1], 0, 10) * 0x9E3779B97F4A7C15ull;\n    signal (SIGFPE, vf_fpe);\n%s\n    printf (\"cases %%d bad %%d\\n\", vf_cases, vf_bad);\n    return vf_bad ? 1 : 0;\n}" % "\n".join(calls))
     dpath = os.path.join(outdir, ex.name + ".diff.c")
     _write(dpath, "\n".join(drv))
     res = {"tested": len(tested), "skipped": skipped, "cases": 0, "mismatches": [], "functions": tested}
